@@ -20,6 +20,7 @@ package mqttproxy
 import (
 	"encoding/base64"
 	"sync"
+	"sync/atomic"
 	"time"
 
 	"gopkg.in/yaml.v2"
@@ -70,6 +71,9 @@ func newMsg(topic string, payload []byte, qos byte) *Message {
 	return m
 }
 
+// storeSeq numbers the store requests of all sessions in the order they are made.
+var storeSeq uint64
+
 func (s *Session) store() {
 	logger.SpanDebugf(nil, "session %v store", s.info.ClientID)
 	str, err := s.encode()
@@ -77,9 +81,13 @@ func (s *Session) store() {
 		logger.SpanErrorf(nil, "encode session %+v failed: %v", s, err)
 		return
 	}
+	// every request is handed to the session manager by a goroutine of its own, so requests
+	// can overtake each other: number them (store is called with the session lock held, so
+	// the numbers follow the order of the changes) and let doStore drop outdated ones.
 	ss := SessionStore{
 		key:   s.info.ClientID,
 		value: str,
+		seq:   atomic.AddUint64(&storeSeq, 1),
 	}
 	go func() {
 		s.storeCh <- ss
